@@ -28,6 +28,8 @@ type state struct {
 	closed   bool
 	name     string
 	relay    bool // created by code under test (not by the harness)
+	laddr    netip.AddrPort
+	raddr    netip.AddrPort // valid for connected sockets
 }
 
 type registry struct {
@@ -73,6 +75,14 @@ func st(c *net.UDPConn) *state {
 	fd := -1
 	rc.Control(func(f uintptr) { fd = int(f) })
 	s = &state{c: c, fd: fd, name: fmt.Sprintf("udp%d", len(r.order)), relay: !harnessMark}
+	if a, ok := c.LocalAddr().(*net.UDPAddr); ok && a != nil {
+		ap := a.AddrPort()
+		s.laddr = netip.AddrPortFrom(ap.Addr().Unmap(), ap.Port())
+	}
+	if a, ok := c.RemoteAddr().(*net.UDPAddr); ok && a != nil {
+		ap := a.AddrPort()
+		s.raddr = netip.AddrPortFrom(ap.Addr().Unmap(), ap.Port())
+	}
 	r.m[c] = s
 	r.order = append(r.order, s)
 	return s
@@ -114,6 +124,77 @@ func readable(s *state) bool {
 		}
 		return e == 0 && n > 0 && fds[0].revents&1 != 0
 	}
+}
+
+// Loopback delivery is asynchronous inside the kernel: sendmsg may return before the datagram sits in the
+// receiver's queue (softirq deferred under load), and poll() on the receiver would then answer differently
+// from one run of the same schedule to the next.  Every send through this package therefore ends with a
+// barrier: if the destination is a socket of this execution, wait (real time, bounded) until its receive
+// queue has grown.  Only one thread runs at a time, so nothing else can change that queue meanwhile.
+
+// rmem returns the bytes allocated in the socket's receive queue (SO_MEMINFO / SK_MEMINFO_RMEM_ALLOC).
+func rmem(s *state) uint32 {
+	var info [16]uint32
+	l := uint32(len(info) * 4)
+	_, _, e := syscall.Syscall6(syscall.SYS_GETSOCKOPT, uintptr(s.fd), syscall.SOL_SOCKET, 55 /*SO_MEMINFO*/, uintptr(ptr32(&info[0])), uintptr(ptrLen(&l)), 0)
+	if e != 0 {
+		return 0
+	}
+	return info[0]
+}
+
+// BarrierTimeouts counts sends whose datagram did not show up at a tracked destination within the bound
+// (dropped by the kernel for a reason the lookup below does not know); diagnostics only.
+var BarrierTimeouts int
+
+func findDest(from *state, dest netip.AddrPort) *state {
+	dest = netip.AddrPortFrom(dest.Addr().Unmap(), dest.Port())
+	var wild *state
+	for _, d := range reg().order {
+		if d.closed || d.laddr.Port() != dest.Port() {
+			continue
+		}
+		if d.raddr.IsValid() && d.raddr != from.laddr {
+			continue // a connected socket only receives from its peer
+		}
+		if d.laddr.Addr() == dest.Addr() {
+			return d
+		}
+		if d.laddr.Addr().IsUnspecified() {
+			wild = d
+		}
+	}
+	return wild
+}
+
+// SendBarrier runs send and, when it succeeded and dest is a socket of this execution, waits until the
+// datagram is in that socket's receive queue.
+func SendBarrier(c *net.UDPConn, dest netip.AddrPort, send func() error) error {
+	from := st(c)
+	if !dest.IsValid() {
+		dest = from.raddr
+	}
+	var d *state
+	var before uint32
+	if dest.IsValid() {
+		if d = findDest(from, dest); d != nil {
+			before = rmem(d)
+		}
+	}
+	if err := send(); err != nil || d == nil {
+		return err
+	}
+	deadline := time.Now().Add(time.Second)
+	for i := 0; rmem(d) <= before; i++ {
+		if time.Now().After(deadline) {
+			BarrierTimeouts++
+			break
+		}
+		if i > 100 {
+			time.Sleep(20 * time.Microsecond)
+		}
+	}
+	return nil
 }
 
 func passed(dl int64) bool { return dl != 0 && vsched.NowNS() >= dl }
@@ -199,7 +280,8 @@ func UDP_WriteMsgUDPAddrPort(c *net.UDPConn, b, oob []byte, addr netip.AddrPort)
 	if err = beforeSend(st(c), "WriteMsg"); err != nil {
 		return
 	}
-	return c.WriteMsgUDPAddrPort(b, oob, addr)
+	err = SendBarrier(c, addr, func() (e error) { n, oobn, e = c.WriteMsgUDPAddrPort(b, oob, addr); return })
+	return
 }
 
 func UDP_WriteToUDPAddrPort(c *net.UDPConn, b []byte, addr netip.AddrPort) (n int, err error) {
@@ -209,7 +291,8 @@ func UDP_WriteToUDPAddrPort(c *net.UDPConn, b []byte, addr netip.AddrPort) (n in
 	if err = beforeSend(st(c), "WriteTo"); err != nil {
 		return
 	}
-	return c.WriteToUDPAddrPort(b, addr)
+	err = SendBarrier(c, addr, func() (e error) { n, e = c.WriteToUDPAddrPort(b, addr); return })
+	return
 }
 
 func UDP_Write(c *net.UDPConn, b []byte) (n int, err error) {
@@ -219,7 +302,8 @@ func UDP_Write(c *net.UDPConn, b []byte) (n int, err error) {
 	if err = beforeSend(st(c), "Write"); err != nil {
 		return
 	}
-	return c.Write(b)
+	err = SendBarrier(c, netip.AddrPort{}, func() (e error) { n, e = c.Write(b); return })
+	return
 }
 
 func setDL(p *int64, t time.Time) {
